@@ -517,6 +517,7 @@ type Contract struct {
 	Invokes   []SExpr // trusted behaviour: exactly these calls of function-valued parameters, in order; their results are the function's results
 	LoopExit  map[int][]*Clause // loop ordinal → what holds whenever control leaves the loop for the code after it
 	GuardedParams map[string]string // map-typed parameter → "Type.mu": its contents may only be accessed with that mutex held
+	AppendFrames bool // emit the old-side frame axiom at appends (witness transfer for exists-facts)
 }
 
 type SpecFunc struct {
@@ -577,7 +578,7 @@ var clauseKeywords = map[string]bool{
 	"func": true, "requires": true, "ensures": true, "loop": true, "modifies": true, "trusted": true,
 	"pure": true, "inline": true, "noinline": true, "strings": true, "bytes": true, "panics": true, "bind": true, "sink": true,
 	"axiom": true, "log": true, "atomic": true, "guarded_by": true, "immutable": true, "must-close": true,
-	"opaque": true, "unroll": true, "yield-requires": true, "invariant": true, "seq-items": true, "private": true, "pure-param": true, "public-invariant": true, "iface-ensures": true, "iface-pure": true, "lemma": true, "holds": true, "guarded-param": true, "invokes": true, "fn-sink": true, "nocall": true, "fn-type-pure": true, "producer": true, "closure": true, "package": true, "assume-return": true,
+	"opaque": true, "unroll": true, "yield-requires": true, "invariant": true, "seq-items": true, "private": true, "pure-param": true, "public-invariant": true, "iface-ensures": true, "iface-pure": true, "lemma": true, "holds": true, "guarded-param": true, "invokes": true, "fn-sink": true, "nocall": true, "append-frames": true, "fn-type-pure": true, "producer": true, "closure": true, "package": true, "assume-return": true,
 }
 
 // LoadContractFile parses one contracts_verif.go file (or any file with //@ lines).
@@ -918,6 +919,10 @@ func (cs *ContractSet) LoadContractFile(path, pkgPath string) error {
 		case "nocall":
 			if cur != nil {
 				cur.NoCall = true
+			}
+		case "append-frames":
+			if cur != nil {
+				cur.AppendFrames = true
 			}
 		case "fn-type-pure":
 			for _, n := range strings.Split(rest, ",") {
